@@ -32,8 +32,8 @@ def run(ctx):
     ctx.samples.append({"case": cases["create"][0], "scenario": fam[0]["name"], "expect": fam[0].get("expect")})
     for workers in (1, 2):
         out = ctx.path(f"runs_w{workers}.ndjson")
-        args = {"groups": ["SCHED"], "workers": workers, "max_runs": ctx.n(10, 500), "seed": ctx.seed, "policy": "pct", "out": out, "scenarios": fam}
-        r = ctx.vh("sched", args, timeout=3000)
+        args = {"groups": ["SCHED"], "workers": workers, "max_runs": ctx.n(10, 200), "seed": ctx.seed, "policy": "pct", "out": out, "scenarios": fam}
+        r = se.sharded(ctx, args, 4 if quick else 12, timeout=6000)
         se.report(ctx, r, args, "C12", also=("C01", "C02", "C03", "C06"))
     args = {"groups": ["SCHED"], "workers": 1, "max_runs": 2, "seed": ctx.seed, "out": ctx.path("seq.ndjson"), "scenarios": fam, "force_sequential": True}
     r = ctx.vh("sched", args, timeout=3000)
